@@ -36,6 +36,13 @@
 #include <sys/mman.h>
 #endif
 
+
+#ifdef IOWOW_VERIF
+/* verification hook: report every msync before it is issued (see iwp.h) */
+#define msync(a_, l_, f_) \
+  ((iwverif_fx ? iwverif_fx(IWVERIF_FX_MSYNC, -1, 0, (long long) (l_)) : (void) 0), msync((a_), (l_), (f_)))
+#endif
+
 struct MMAPSLOT;
 typedef struct IWFS_EXT_IMPL {
   IWFS_FILE file;            /**< Underlying file */
